@@ -38,6 +38,9 @@ func (c *TraitOf[V]) PrepareRead(ctx context.Context, cacheEntry *TraitEntryOf[V
 		return v, ErrNotFound
 	}
 
+	// Expiration is loaded before taking current time, so that expiration set by
+	// concurrent ExpireAll is never in the future (which would make an entry look valid).
+	expireAt := atomic.LoadInt64(&cacheEntry.E)
 	now := ts(time.Now())
 
 	if cacheEntry != nil && c.Config.EvictionStrategy != EvictMostExpired {
@@ -49,7 +52,7 @@ func (c *TraitOf[V]) PrepareRead(ctx context.Context, cacheEntry *TraitEntryOf[V
 		}
 	}
 
-	if e := atomic.LoadInt64(&cacheEntry.E); e != 0 && e < now {
+	if expireAt != 0 && expireAt < now {
 		if c.Log.logDebug != nil {
 			c.Log.logDebug(ctx, "cache key expired", "name", c.Config.Name)
 		}
